@@ -33,5 +33,6 @@ func init() {
 			N: c.N(4000, 300000), Gen: st2.next, Check: specTreeCheck("C01"), Batch: 4000,
 		})
 		vmLeg(c, c.N(500, 8000), vmSizes{k: 24, maxSteps: 4000, maxText: 12, extra: 2}) // leg W: interpreter model vs executeDefault (vm.go)
+		wrLeg(c, 4000, 400000)
 	})
 }
